@@ -184,6 +184,12 @@ def scope(rc):
         rc.fail(mm, mm.node, "max_marginal = max over the requested variables of the max-eliminated joint", construct="max_marginal")
 
 
+
+@rule("C03.defuse", "anchored files: every parameter is read, no value is computed and dropped (generic def-use detectors, triaged hit list)", floor=2)
+def defuse(rc):
+    from . import shared as _sh
+    _sh.defuse_rule(rc, _sh.anchor_files("C03"))
+
 MUTANTS = [
     dict(kind="break", name="assignment-forward-cardinalities", file=DF, expect="C03.decode",
          old="        rev_card = self.cardinality[::-1]\n", new="        rev_card = self.cardinality[:]\n"),
